@@ -557,6 +557,11 @@ pub fn decode_slots(slots: &[Slot]) -> (Vec<DEntry>, Vec<usize>, Option<usize>, 
                 let mut sfn = [0u8; 11];
                 sfn.copy_from_slice(&s.b[..11]);
                 let verdict = judge_run(slots, &run, &sfn);
+                if let Some(st) = run.iter().rposition(|j| slots[*j].b[0] & 0x40 != 0) {
+                    if st > 0 {
+                        findings.push(fnd("orphan-lfn", format!("{} stray LFN slot(s) before the run of the entry at {:#x}", st, s.off)));
+                    }
+                }
                 let mut slot_offs: Vec<u64> = run.iter().map(|j| slots[*j].off).collect();
                 slot_offs.push(s.off);
                 let first_slot_idx = run.first().copied().unwrap_or(i);
@@ -606,39 +611,24 @@ pub fn judge_run(slots: &[Slot], run: &[usize], sfn: &[u8; 11]) -> LfnVerdict {
     if run.is_empty() {
         return LfnVerdict::None;
     }
-    // physical adjacency is guaranteed by the caller (run is cleared by any non-LFN slot)
+    // physical adjacency is guaranteed by the caller (run is cleared by any non-LFN slot).
+    // The run that can belong to the short entry starts at the LAST slot carrying the last-entry flag; anything
+    // before it is stray (orphaned) and makes the verdict "ambiguous" rather than "valid".
+    let Some(start) = run.iter().rposition(|j| slots[*j].b[0] & 0x40 != 0) else {
+        return LfnVerdict::Broken("no slot carries the last-entry flag".into());
+    };
+    if start > 0 {
+        // a slot with the last-entry flag always starts a new run: the stray slots before it are orphans (reported
+        // separately by decode_slots), the verdict is that of the run they precede
+        return judge_run(slots, &run[start..], sfn);
+    }
     let first = &slots[run[0]];
     let ord0 = first.b[0];
-    if ord0 & 0x40 == 0 {
-        return LfnVerdict::Broken("first slot lacks the last-entry flag".into());
-    }
     let n = usize::from(ord0 & 0x3F);
     if n == 0 || n > 20 {
         return LfnVerdict::Broken(format!("order {} out of range", n));
     }
     if n != run.len() {
-        // there may be stray slots before a valid run; the spec-valid run is the last `n` slots only if its
-        // first slot carries the flag. Otherwise it is broken.
-        if run.len() > n {
-            // try the tail
-            let tail = &run[run.len() - n..];
-            let t0 = &slots[tail[0]];
-            if t0.b[0] & 0x40 != 0 && usize::from(t0.b[0] & 0x3F) == n {
-                return LfnVerdict::Ambiguous("stray LFN slots before the run".into());
-            }
-        }
-        // maybe a later slot restarts a run
-        for (pos, j) in run.iter().enumerate().skip(1) {
-            if slots[*j].b[0] & 0x40 != 0 {
-                let sub = judge_run(slots, &run[pos..], sfn);
-                return match sub {
-                    LfnVerdict::Valid(_) | LfnVerdict::Ambiguous(_) => {
-                        LfnVerdict::Ambiguous("stray LFN slots before a restarted run".into())
-                    }
-                    other => other,
-                };
-            }
-        }
         return LfnVerdict::Broken(format!("run of {} slot(s) announces {}", run.len(), n));
     }
     let chk = sfn_checksum(sfn);
